@@ -342,8 +342,9 @@ ALPHABET = [('$', 1), ('$A', 1), ('>', 1), ('<', 1), ('>A', 1), ('<A', 1), ('$',
 
 def systematic(seeds, with_cap=True):
     """AB fragment carrying (d1 on A, d2 on B) for all pairs of the alphabet, optionally a one-node cap with
-    one descriptor; reactivity modes: none / zero on d1 / zero on d2 / d1 missing; the cap's descriptor
-    terminal or not; integer masses; targets on an exact multiple and off it."""
+    one descriptor; reactivity tables: none / zero on d1 / only d2 listed; the cap's descriptor terminal or not;
+    integer masses (M 5, T 2); targets 10 (an exact multiple) and 17; only configurations in which every
+    '>' / '<' descriptor has its complement."""
     caps = [None] + (ALPHABET if with_cap else [])
     for (b1, o1), (b2, o2) in itertools.product(ALPHABET, ALPHABET):
         for cap in caps:
@@ -362,7 +363,7 @@ def systematic(seeds, with_cap=True):
                 prs.append({d2: 2.0})
             terms = [[]] + ([[dc]] if dc else [])
             for pr, term, seed in itertools.product(prs, terms, seeds):
-                for target in (15, 18):
+                for target in (10, 17):
                     c = _cfg([dict(f, desc=[list(x) for x in f['desc']]) for f in frags], False, pr=dict(pr),
                              term=list(term), masses=dict(masses), start='M' if seed % 2 else None)
                     c['seed'] = seed
